@@ -232,7 +232,7 @@ claim(
 claim(
     "C18",
     "other",
-    "Decides apply_params up to the end of its device loop by abstract interpretation on devices with symbolic, possibly overlapping grid slices and a symbolic per-cell parameter x, as polynomial identities in the devices' region indicators: continuous two-material devices write 1/(p0 + x (p1-p0)) per stored component (isotropic and diagonal tiers) with materials in the common order; etched devices write 1/(bg + x (p_etch - bg)) with bg the reciprocal of the restored initial inverse permittivity, restored once before the first device (stale values never survive; a later etched device keeps an earlier device's cells); discrete devices store the table entry of 1/eps or of the inverted 3x3 tensor at the integer material index; dispersive stacks c1..c4 blend (1-x)c_N[0]+x c_N[1] or look up c_N[index], each N from its own table, c4 only when allocated; outside the device slices every array keeps its incoming (restored) value and several devices paint sequentially in list order. Parameter transform chains, voxel expansion and the straight-through gradient (C19) are not decided here.",
+    "Decides apply_params up to the end of its device loop by abstract interpretation on devices with symbolic, possibly overlapping grid slices and a symbolic per-cell parameter x, as polynomial identities in the devices' region indicators: continuous two-material devices write 1/(p0 + x (p1-p0)) per stored component (isotropic and diagonal tiers) with materials in the common order; etched devices write 1/(bg + x (p_etch - bg)) with bg the reciprocal of the restored initial inverse permittivity, restored once before the first device (stale values never survive; a later etched device keeps an earlier device's cells); discrete devices store the table entry of 1/eps or of the inverted 3x3 tensor at the integer material index; dispersive stacks c1..c4 blend (1-x)c_N[0]+x c_N[1] or look up c_N[index], each N from its own table, c4 only when allocated; outside the device slices every array keeps its incoming (restored) value and several devices paint sequentially in list order. _init_arrays keeps the backup of the initial inverse permittivity whenever at least one device etches (backward slice of the backup's definition interpreted over eight device lists, mixed ones included). Parameter transform chains, voxel expansion and the straight-through gradient (C19) are not decided here.",
     TB + "; prefix slicing of apply_params; symbolic table-lookup atoms for integer indices; indicator algebra; tree .at[name].set model",
     "abstract interpretation of a function prefix over an indicator-algebra array domain; polynomial identity against a sequential-painting oracle",
     "DESIGN.md §5 C18",
@@ -331,7 +331,7 @@ claim(
 claim(
     "C38",
     "other",
-    "Narrow: equality of whole runs is not decided; decided are the three things it rests on. (1) UniformGrid.resolve and QuasiUniformGrid.resolve, interpreted for symbolic spacing and centre on several shapes, construct the RectilinearGrid from the same edges centre_a + s (i - n_a/2) (construction intercepted, entry-wise), _resolve_grid_from_volume derives the same cell counts for both policies and leaves an explicit grid alone. (2) RectilinearGrid.cfl_time_step gives the same step on its uniform and its general branch for equal minimal spacings, the policies' time_step_duration equals it, and with that step _metric_scale and TFSFPlaneSource._metric_scale_at_plane are identically 1 on equal widths for both stencils, so the metric-aware path coincides with the uniform one. (3) _center_to_bounds_for_grid, length_to_cell_count and axis_extent select the same cells for an equal-spaced grid whatever its origin, over all position / size classes. Float round-off of edge arithmetic and the uniformity tolerance (C37) are not decided.",
+    "Narrow: equality of whole runs is not decided; decided are the three things it rests on. (1) UniformGrid.resolve and QuasiUniformGrid.resolve, interpreted for symbolic spacing and centre on several shapes, construct the RectilinearGrid from the same edges centre_a + s (i - n_a/2) (construction intercepted, entry-wise), _resolve_grid_from_volume derives the same cell counts for both policies and leaves an explicit grid alone. (2) RectilinearGrid.cfl_time_step gives the same step on its uniform and its general branch for equal minimal spacings, the policies' time_step_duration equals it, and with that step _metric_scale and TFSFPlaneSource._metric_scale_at_plane are identically 1 on equal widths for both stencils, so the metric-aware path coincides with the uniform one. (3) _center_to_bounds_for_grid, length_to_cell_count and axis_extent select the same cells for an equal-spaced grid whatever its origin, over all position / size classes. The constructor's uniformity verdict for equal widths (exact, or with a few ulp of jitter) is the same for every origin, entirely negative coordinates included; place_objects, interpreted up to the grid pinning on abstract grids that record the operations applied to them, pins the solver grid by the same route for the three descriptions (realise on the full shape, then reduce_symmetric under symmetry — 3 symmetries x 3 descriptions). Float round-off of edge arithmetic is not decided.",
     TB + "; intercepted RectilinearGrid construction; rational numpy model of C37; sqrt opaque with sqrt(u)^2 = u",
     "abstract interpretation with symbolic spacing / centre against closed-form edges; polynomial identities for time step and metric factors; order-type enumeration for origin independence",
     "DESIGN.md §5 C38",
